@@ -8,6 +8,7 @@ from . import _rows
 
 PROP = "C18"
 LEVEL = "exploration"
+ANCHORS = ["batt_life"]  # functions whose reached lines are reported in the evidence
 RULE = (
     "cases = random systems (1-3 sources, optional mux, 0-5 phases) x battery = any source (addressed by name or "
     "rail) x battery model (linear, sagging, impedance-growing, noisy; cut-off reached before capacity or vice "
